@@ -132,7 +132,13 @@ fn entry_world(sel: u64, ts: Option<TimeoutSettings>, silent: bool, t: &mut Tape
     let c = match sel {
         0 => {
             if !silent {
-                w.add_server(addr, Proto::Udp, Box::new(ValveServer::new(ValveState::generate(t, false, false, Some(440), 3, 3))));
+                // with or without a challenge round before each reply
+                let mut s = ValveServer::new(ValveState::generate(t, false, false, Some(440), 3, 3));
+                let rounds = t.draw(CFG, 3) as u8;
+                for k in 0 .. 3 {
+                    s.enc[k].challenge_rounds = rounds;
+                }
+                w.add_server(addr, Proto::Udp, Box::new(s));
             }
             call(Entry::Valve { engine: Engine::new(440), gather: None })
         }
